@@ -196,47 +196,113 @@ func (s *proc) Check() Result {
 }
 
 // Model reads the values of the given variables after a Sat result (must be called before pop).
-// Int -> *big.Int, Bool -> bool, FP -> string (raw).
+// Int -> *big.Int, Bool -> bool, others -> string (raw). One get-value round trip.
 func (s *proc) Model(vars []*Term) (map[string]interface{}, error) {
 	m := map[string]interface{}{}
+	if len(vars) == 0 {
+		return m, nil
+	}
+	var sb strings.Builder
+	sb.WriteString("(get-value (")
 	for _, v := range vars {
-		r := s.Declare(v)
-		s.send(fmt.Sprintf("(get-value (%s))\n(echo \"@@done\")\n", r))
-		var sb strings.Builder
-		for {
-			line, err := s.readLine()
-			if err != nil {
-				s.dead = true
-				return nil, err
-			}
-			if strings.Trim(line, "\"") == "@@done" {
-				break
-			}
-			sb.WriteString(line)
-			sb.WriteByte(' ')
+		sb.WriteString(s.Declare(v))
+		sb.WriteByte(' ')
+	}
+	sb.WriteString("))\n(echo \"@@done\")\n")
+	s.send(sb.String())
+	var out strings.Builder
+	for {
+		line, err := s.readLine()
+		if err != nil {
+			s.dead = true
+			return nil, err
 		}
-		txt := strings.TrimSpace(sb.String())
-		if strings.HasPrefix(txt, "(error") {
-			return nil, fmt.Errorf("get-value: %s", txt)
+		if strings.Trim(line, "\"") == "@@done" {
+			break
 		}
-		// ((name value))
-		txt = strings.TrimPrefix(txt, "((")
-		txt = strings.TrimSuffix(txt, "))")
-		txt = strings.TrimSpace(strings.TrimPrefix(txt, r))
+		out.WriteString(line)
+		out.WriteByte(' ')
+	}
+	txt := strings.TrimSpace(out.String())
+	if strings.HasPrefix(txt, "(error") {
+		return nil, fmt.Errorf("get-value: %s", txt)
+	}
+	pairs, ok := splitSExprList(txt)
+	if !ok || len(pairs) != len(vars) {
+		return nil, fmt.Errorf("get-value: cannot parse %q", txt)
+	}
+	for i, v := range vars {
+		kv, ok := splitSExprList(pairs[i])
+		if !ok || len(kv) != 2 {
+			return nil, fmt.Errorf("get-value: bad pair %q", pairs[i])
+		}
+		val := kv[1]
 		switch v.Sort {
 		case SBool:
-			m[v.Name] = txt == "true"
+			m[v.Name] = val == "true"
 		case SInt:
-			val, ok := parseIntLit(txt)
+			iv, ok := parseIntLit(val)
 			if !ok {
-				return nil, fmt.Errorf("cannot parse int value %q for %s", txt, v.Name)
+				return nil, fmt.Errorf("cannot parse int value %q for %s", val, v.Name)
 			}
-			m[v.Name] = val
+			m[v.Name] = iv
 		default:
-			m[v.Name] = txt
+			m[v.Name] = val
 		}
 	}
 	return m, nil
+}
+
+// splitSExprList splits "(a (b c) d)" into its top-level elements.
+func splitSExprList(s string) ([]string, bool) {
+	s = strings.TrimSpace(s)
+	if len(s) < 2 || s[0] != '(' || s[len(s)-1] != ')' {
+		return nil, false
+	}
+	s = s[1 : len(s)-1]
+	var out []string
+	depth, start := 0, -1
+	inBar := false
+	for i := 0; i < len(s); i++ {
+		c := s[i]
+		if inBar {
+			if c == '|' {
+				inBar = false
+			}
+			continue
+		}
+		switch {
+		case c == '|':
+			inBar = true
+			if start < 0 {
+				start = i
+			}
+		case c == '(':
+			if depth == 0 && start < 0 {
+				start = i
+			}
+			depth++
+		case c == ')':
+			depth--
+			if depth == 0 && start >= 0 {
+				out = append(out, s[start:i+1])
+				start = -1
+			}
+		case c == ' ' || c == '\t' || c == '\n':
+			if depth == 0 && start >= 0 {
+				out = append(out, s[start:i])
+				start = -1
+			}
+		default:
+			if start < 0 {
+				start = i
+			}
+		}
+	}
+	if start >= 0 {
+		out = append(out, s[start:])
+	}
+	return out, depth == 0
 }
 
 func parseIntLit(s string) (*big.Int, bool) {
@@ -375,6 +441,9 @@ func (s *Solver) check(light bool) Result {
 }
 
 func (s *Solver) Check() Result { return s.check(false) }
+
+// CheckLight uses the short schedule (feasibility questions: unknown keeps the branch).
+func (s *Solver) CheckLight() Result { return s.check(true) }
 
 // CheckWith: push, assert extra, check, pop. Feasibility checks use the light schedule
 // (an unknown answer keeps the branch, which is sound).
